@@ -1083,6 +1083,20 @@ def _size_term(ctx, L, node, env):
 
     body = node
     names = {"this"}
+    if isinstance(node, ast.Name) and env is not None:
+        # a named function in the place of the lambda: the layout engine's canonical form of what it returns
+        from ..core.terms import parse_key
+        try:
+            v = L.const(node, env)
+        except Unknown:
+            v = None
+        nm_ = getattr(v, "name", None)
+        if isinstance(nm_, str) and nm_.startswith("<") and nm_.endswith(">"):
+            t = parse_key(nm_[1:-1])
+            if t is not None and all(a.startswith("this.") for a in t.atoms()):
+                return t
+        elif isinstance(nm_, str) and nm_.startswith("this."):
+            return Term.atom(nm_)
     if isinstance(node, ast.Lambda):
         body = node.body
         names = {a.arg for a in node.args.args} | {"this"}
